@@ -87,6 +87,7 @@ type world struct {
 	decl   map[[2]uint64]*pb.StringUint64Map
 	kids   map[[3]uint64][]string // declared group -> ids of the requests that carried it, in order of appearance
 	kidSet map[string]bool
+	sticky map[[3]uint64]string // declared group -> global id found for it
 }
 
 // the Group field of the IBTPs of group (from, tag)
@@ -100,11 +101,31 @@ func (w *world) group(from int, g, count uint64) *pb.StringUint64Map {
 	return groupOf(g, count)
 }
 
-// the global id the contract filed the declared group under: read back from the ledger through the
-// group's own children (child id -> global id), never recomputed
+// the global id the contract filed the declared group under.  Never trusted from a recomputation alone:
+// (1) what was found earlier stays (a later duplicate of a child id, accepted e.g. by an Ordered=false destination,
+// re-files the child under another group); (2) the documented derivation sha256(From || json(Group)) counts only if a
+// record really exists under it; (3) otherwise the id is read back through the group's own children
+// (child id -> global id), so a changed derivation is judged by who shares a record with whom.
 func (w *world) resolve(c *hx.Chain, tm *types.Address, q [3]uint64) (string, bool) {
+	if gid, ok := w.sticky[q]; ok {
+		return gid, true
+	}
+	if grp := w.group(int(q[0]), q[1], q[2]); grp != nil {
+		m := make(map[string]uint64)
+		for i, key := range grp.Keys {
+			m[key] = grp.Vals[i]
+		}
+		data, _ := json.Marshal(m)
+		hsh := sha256.Sum256(append([]byte(w.full(int(q[0]))), data...))
+		rid := types.NewHash(hsh[:]).String()
+		if ok, _ := c.ViewLdg.GetState(tm, []byte(contracts.GlobalTxInfoKey(rid))); ok {
+			w.sticky[q] = rid
+			return rid, true
+		}
+	}
 	for _, id := range w.kids[q] {
 		if ok, val := c.ViewLdg.GetState(tm, []byte(id)); ok && len(val) > 0 {
+			w.sticky[q] = string(val)
 			return string(val), true
 		}
 	}
@@ -295,7 +316,7 @@ func runHistory(line []byte) (interface{}, error) {
 	fail := func(msg string) (interface{}, error) { out["err"] = msg; out["blocks"] = []interface{}{}; return out, nil }
 
 	w := &world{byFull: map[string]int{}, gids: map[string][3]uint64{}, chains: map[string]int{}, decl: map[[2]uint64]*pb.StringUint64Map{},
-		kids: map[[3]uint64][]string{}, kidSet: map[string]bool{}}
+		kids: map[[3]uint64][]string{}, kidSet: map[string]bool{}, sticky: map[[3]uint64]string{}}
 	hubAvail := map[int]bool{}
 	for _, hb := range h.Hubs {
 		hubAvail[hb[0]] = hb[1] != 0
